@@ -414,6 +414,13 @@ def r_all_equal(ck: Checker) -> None:
         detail = f"`{name}` = {sorted(texts)}"
         if texts and all(re.fullmatch(r"\{Predicate\((\w+)\.atom\.symbol\.name, len\(\1\.atom\.symbol\.arguments\)\) for \1 in (\w+)\}", t) for t in texts):
             good = True
+    if not good:
+        # the same test written over the literals: all(l.name == first.name and len(l.arguments) == len(first.arguments) for l in group)
+        pat = re.compile(r"all\(\((\w+)\.atom\.symbol\.name == (.+?)\.name and len\(\1\.atom\.symbol\.arguments\) == len\(\2\.arguments\) for \1 in (\w+)\)\)")
+        for key, val in it.known(site):
+            m_ = pat.fullmatch(key)
+            if m_ and val is True and m_.group(2).replace(" ", "") in (f"{m_.group(3)}[0].atom.symbol",):
+                good, detail = True, f"dominating fact `{short(key, 120)}`"
     ck.add("a group is yielded only if all its literals have the same predicate name AND arity", good, func, site, detail,
            "`assign(X,Z), assign(Y), X != Y` are two different predicates: zip() over their arguments silently truncates and the assign/1 literal disappears from the rule")
 
